@@ -205,6 +205,10 @@ const CORPUS: &[(&str, &str, &str, &str)] = &[
     ("F9-two-learned-bases", "phonetic", "01000000000", "kor¹kore¹korei␛"),
     ("F18-zwnj-emoji-name", "probhat", "00100100000", "fUl␛"),
     ("seed-C01-1-pending-kar-recursion", "probhat", "00110000100", "k[a␛[a␛"),
+    // time: one uncommitted word whose tail is a long chain of suffix keys (every split point is a suffix)
+    ("time-suffix-chain-er", "phonetic", "01000000001", "kererererererererererererererererererererererer␛"),
+    ("time-suffix-chain-mixed", "phonetic", "11000000001", "deshgulokeitaragulokeigulotaderkeoeierer␛"),
+    ("time-repeated-vowels", "phonetic", "01000000001", "aaaaaaaaaaaaaaaaaaaaaaaaaaaaaaaaaaaaaaaaoooooooooooooooooooo␛"),
     ("seed-C03-1-punctuation-after-word", "phonetic", "00000000001", "k⏎.␛(a⌫␛"),
     ("seed-C06-1-hasanta-vowel-then-backspace", "probhat", "10110000000", "/u⌫;)␛/u⌫k␛"),
 ];
@@ -232,6 +236,7 @@ fn run_corpus(env: &Env, rep: &mut Report, t: &mut Trace, lay: &Layouts) {
             };
             let on = s.imp.ongoing();
             if o == Obs::Panic { rep.violation("C01", "panic", format!("corpus {}: panic at {:?} of {:?}", name, ch, script), ctx); break; }
+            if s.imp.slowest > TIME_BUDGET_S { rep.violation("C01", "slow-event", format!("corpus {}: the event {:?} (number {} of {:?}) took {:.2}s", name, ch, s.events.len(), script, s.imp.slowest), ctx.clone()); break; }
             check_obs(rep, &ctx, phon, None, &o, on, true, None);
         }
         rep.eval(Some(&case));
